@@ -390,11 +390,35 @@ func c03GenCase(t *rapid.T) (*c03Case, bool) {
 
 // ---------------------------------------------------------------- execution
 
+// c03WatchBackend records every path written so that two flushes producing the
+// same file name (generateStoragePath embeds wall-clock nanoseconds) are
+// diagnosed as such instead of showing up as an unexplained missing row.
+type c03WatchBackend struct {
+	storage.Backend
+	mu    sync.Mutex
+	seen  map[string]int
+	dupes []string
+}
+
+func (w *c03WatchBackend) Write(ctx context.Context, path string, data []byte) error {
+	w.mu.Lock()
+	w.seen[path]++
+	if w.seen[path] > 1 {
+		w.dupes = append(w.dupes, path)
+	}
+	w.mu.Unlock()
+	return w.Backend.Write(ctx, path, data)
+}
+
+var c03LastWatch *c03WatchBackend
+
 func c03NewBuffer(cfg c03Config, root string) (*ArrowBuffer, error) {
-	be, err := storage.NewLocalBackend(root, zerolog.Nop())
+	lb, err := storage.NewLocalBackend(root, zerolog.Nop())
 	if err != nil {
 		return nil, err
 	}
+	be := &c03WatchBackend{Backend: lb, seen: map[string]int{}}
+	c03LastWatch = be
 	ic := &config.IngestConfig{
 		MaxBufferSize:     cfg.MaxBufferSize,
 		MaxBufferAgeMS:    cfg.MaxBufferAgeMS,
@@ -607,6 +631,9 @@ func c03Run(c *c03Case, root string) (*c03Outcome, error) {
 	if n := buf.totalErrors.Load(); n > 0 {
 		return out, fmt.Errorf("ArrowBuffer reported %d flush/queue errors on a healthy local backend", n)
 	}
+	if w := c03LastWatch; w != nil && len(w.dupes) > 0 {
+		return out, fmt.Errorf("file-name collision: two flushes wrote the same storage path (the second overwrote the first): %v", w.dupes)
+	}
 	return out, nil
 }
 
@@ -794,7 +821,11 @@ func TestVerifC03_ExactlyOncePerHour(t *testing.T) {
 		}
 		if runErr != nil {
 			verifkit.WriteReplay("c03-history", c)
-			t.Fatalf("VERIF-FAIL class=C03/flush-error %v\ncase=%v", runErr, c.summary(out))
+			class := "flush-error"
+			if strings.Contains(runErr.Error(), "file-name collision") {
+				class = "file-name-collision"
+			}
+			t.Fatalf("VERIF-FAIL class=C03/%s %v\ncase=%v", class, runErr, c.summary(out))
 		}
 		if class, detail := c03CheckStore(root, out); class != "" {
 			verifkit.WriteReplay("c03-history", c)
